@@ -8,11 +8,11 @@ CONN_INVS = """INVARIANTS TypeOK PrefixOfMeaning CompleteMeaning OnewayNoBytes C
   ErrorNameGuard ActiveOK"""
 
 
-def conn_mc_cfg(family, conns="{c1}", maxscript=1, rich=False, liveness=True, extra_inv=""):
+def conn_mc_cfg(family, conns="{c1}", maxscript=1, rich=False, liveness=True, extra_inv="", reg="MCReg"):
     return """SPECIFICATION Spec
 CONSTANTS
   Conns = %s
-  Reg <- MCReg
+  Reg <- %s
   Family = "%s"
   MaxScript = %d
   Rich = %s
@@ -20,7 +20,7 @@ CONSTANTS
 %s
 VIEW View
 CHECK_DEADLOCK FALSE
-""" % (conns, family, maxscript, "TRUE" if rich else "FALSE", CONN_INVS, extra_inv, "PROPERTY Released" if liveness else "")
+""" % (conns, reg, family, maxscript, "TRUE" if rich else "FALSE", CONN_INVS, extra_inv, "PROPERTY Released" if liveness else "")
 
 
 def conn_gen_cfg(maxscript, rich):
@@ -35,11 +35,11 @@ CONSTANTS
 """ % (maxscript, "TRUE" if rich else "FALSE")
 
 
-def conn_trace_cfg(conns='{"c1"}'):
+def conn_trace_cfg(conns='{"c1"}', reg="TReg"):
     return """SPECIFICATION TraceSpec
 CONSTANTS
   Conns = %s
-  Reg <- TReg
+  Reg <- %s
   MaxScript = 1
   Rich = FALSE
 INVARIANTS TypeOK PrefixOfMeaning OnewayNoBytes ContinuesOnlyMore ArrivalOrder NoOverlap
@@ -48,7 +48,7 @@ INVARIANTS TypeOK PrefixOfMeaning OnewayNoBytes ContinuesOnlyMore ArrivalOrder N
 CONSTRAINT HighWater
 POSTCONDITION TraceAccepted
 CHECK_DEADLOCK FALSE
-""" % conns
+""" % (conns, reg)
 
 
 def has_ev(chunk, *evs):
@@ -62,6 +62,16 @@ def multi_lines(run, pool, n, k=3):
         pick = [pool[run.rng.randrange(len(pool))] for _ in range(k)]
         out.append("{" + ",".join('"c%d":%s' % (i + 1, s) for i, s in enumerate(pick)) + "}")
     return out
+
+
+GEN_FILES = ["scen_F1.ndjson", "scen_F2.ndjson", "scen_F3.ndjson", "scen_F4.ndjson", "scen_F5.ndjson", "scen_F6.ndjson", "scen_Probe.ndjson"]
+CONN_ASSUME = ["scripted handlers (finite reply scripts shipped in the call parameters)",
+               "unix stream sockets; service reads are unlogged and inferred by TLC",
+               "trace recorder ordering discipline (harness/tr)"]
+
+
+def sample(run, lines, n):
+    return lines if len(lines) <= n else run.rng.sample(lines, n)
 
 
 def check_C01(run):
@@ -96,3 +106,59 @@ def check_C01(run):
         assumptions=["scripted handlers (finite reply scripts shipped in the call parameters)",
                      "unix stream sockets; service reads are unlogged and inferred by TLC",
                      "trace recorder ordering discipline (harness/tr)"])
+
+
+REGSETS = [("TRegA", "MCReg", "a.b,a.b.c"), ("TRegB", "MCRegB", "a,a.b.c.d,a.U1"), ("TRegC", "MCRegC", "")]
+
+
+def check_C04(run):
+    thorough = run.tier == "thorough"
+    for treg, mcreg, flag in REGSETS:
+        run.model_check("ConnMC", conn_mc_cfg("F4", rich=thorough, reg=mcreg, liveness=False),
+                        "Conn F4: every method string x registration set {%s} (routing = Route(), one disposition, connection stays usable)" % flag, timeout=1500)
+    run.model_check("ConnMC", conn_mc_cfg("F1", maxscript=1, rich=False, liveness=False), "Conn F1: non-call frames are never dispatched", timeout=1500)
+    g = run.generate("ConnGen", conn_gen_cfg(1, thorough), GEN_FILES)
+    f4 = g["scen_F4.ndjson"]
+    garbage = [l for l in g["scen_F1.ndjson"] if '"cls":"call"' not in l]
+    run.extra["scenario_space"] = {"method_strings": len(f4), "non_call_frames": len(garbage)}
+    nt = lambda c: has_ev(c, "CR")
+    for treg, mcreg, flag in REGSETS:
+        lines = f4 if thorough else sample(run, f4, 500)
+        replay_validate(run, lines, ["conn", "-reg", flag], "ConnTrace", conn_trace_cfg(reg=treg),
+                        "C04 method strings against registered {%s}" % flag, nontrivial=nt)
+    replay_validate(run, garbage, ["conn"], "ConnTrace", conn_trace_cfg(), "C04 frames that are not a call object", nontrivial=lambda c: True)
+    run.write_evidence("model_checking",
+        "method strings = TLC-enumerated set MethodStrings of spec/ConnScen.tla (all strings over {.,a,b,c} up to length 4 (thorough 5), near-misses of 5 registered names and of org.varlink.service by deletion/insertion/replacement/extra dots, each also as interface part) x 3 registration sets; each followed by a probe call on the same connection; non-trivial = the client received at least one reply frame",
+        exhaustive=thorough, assumptions=CONN_ASSUME + ["method strings are valid UTF-8 (the JSON decoder rewrites others before routing)"])
+
+
+def check_C10(run):
+    thorough = run.tier == "thorough"
+    run.model_check("ConnMC", conn_mc_cfg("F6"), "Conn F6: garbage / wrong-shape / partial streams, every composition into writes, half-close and abort at every symbol offset (incl. liveness Released)", timeout=1500)
+    run.model_check("ConnMC", conn_mc_cfg("Multi", conns="{c1, c2}", extra_inv="Independence", liveness=False),
+                    "Conn Multi: a second connection is unaffected (Independence)", timeout=1500)
+    g = run.generate("ConnGen", conn_gen_cfg(1, False), GEN_FILES)
+    f6 = g["scen_F6.ndjson"]
+    probe = g["scen_Probe.ndjson"][0]
+    run.extra["scenario_space"] = {"F6": len(f6)}
+    lines = f6 if thorough else sample(run, f6, 900)
+    nt = lambda c: has_ev(c, "CE")
+    replay_validate(run, lines, ["conn"], "ConnTrace", conn_trace_cfg(), "C10 hostile streams, alone", nontrivial=nt)
+    # with a well-behaved neighbour running concurrently on the same service
+    ml = ['{"c1":%s,"c2":%s}' % (l, probe) for l in (lines if thorough else sample(run, lines, 300))]
+    replay_validate(run, ml, ["conn", "-multi"], "ConnTrace", conn_trace_cfg('{"c1", "c2"}'),
+                    "C10 hostile stream + concurrent well-behaved connection", nontrivial=nt)
+    # abort at every byte offset of the first frame
+    cut = [l for l in f6 if json.loads(l)["segs"] == [1] and json.loads(l)["frames"][0]["nb"] == 2]
+    cl = cut if thorough else sample(run, cut, 6)
+    replay_validate(run, cl, ["conn", "-allcuts"], "ConnTrace", conn_trace_cfg(), "C10 client stops at every byte offset of the first frame", nontrivial=nt, shards=min(16, len(cl)))
+    run.write_evidence("model_checking",
+        "streams = TLC-enumerated family F6 of spec/ConnScen.tla (valid calls, null, invalid JSON, non-objects, wrong member types, empty frame, partial trailing frame; up to 2 frames; all compositions into writes; client half-closes or aborts after any symbol); byte-level: the cut inside the first frame placed at every byte offset; non-trivial = the client ended the stream (every scenario)",
+        exhaustive=thorough, assumptions=CONN_ASSUME + ["ambiguous JSON (duplicate or case-variant keys) follows encoding/json and is not generated"])
+
+
+def conn_C12_service(run, thorough, g):
+    f5 = g["scen_F5.ndjson"]
+    lines = f5 if thorough else sample(run, f5, 400)
+    replay_validate(run, lines, ["conn"], "ConnTrace", conn_trace_cfg(), "C12 error names through Call.ReplyError (service side, raw client)",
+                    nontrivial=lambda c: has_ev(c, "RE"))
